@@ -45,7 +45,7 @@ Print Assumptions C13_fresh_accepted.
 Theorem C13_short_name_rules : forall p g k n s ob,
   let i := (gkey g, k, n) in
   lookup p i = Some ob ->
-  let ob' := mkObj s (o_env ob) (o_metavar ob) (o_default ob) in
+  let ob' := mkObj s (o_env ob) (o_metavar ob) (o_default ob) (o_optional ob) in
   (length s = 1 /\ (o_short ob = [] \/ o_short ob = s) ->
      step p (OSet g k n (SShort s)) = (store p i ob', ROk i) /\ lookup (store p i ob') i = Some ob' /\
      forall j, j <> i -> lookup (store p i ob') j = lookup p j) /\
